@@ -14,7 +14,7 @@ from .values import *
 from .contract import SpecCtx
 
 NODE_FIELDS = ['_priority', '_delete', '_allow_new', '_safe', '_implicit_delete', '_implicit_allow_new', '_implicit_safe',
-               '_default_safe', '_source_file', '_idx', '_func']
+               '_default_safe', '_source_file', '_idx', '_func', '_pyyaml_node']
 MAX_ITEMS = 6
 _DEFS = []
 _LOADED_ROOT = None
@@ -98,6 +98,9 @@ class Concretizer:
         o['fields'] = {}
         if cname in self.eng.repo.classes and self.eng.repo.is_subclass(cname, 'ConfigNode'):
             for f in NODE_FIELDS:
+                if f == '_pyyaml_node':
+                    o['fields'][f] = None
+                    continue
                 if f == '_func' and not self.eng.repo.is_subclass(cname, 'FunctionNode'):
                     continue
                 o['fields'][f] = jval(self.ev(self.h.get(f, r)))
@@ -285,11 +288,12 @@ class Abstractor:
         self.ids = ids            # id(real object) -> ref
         self.keep = []
         self.nfresh = 0
+        self.positive = True      # objects first seen in the pre-state get positive identities, later ones negative
 
     def ref_of(self, x):
         if id(x) not in self.ids:
             self.nfresh += 1
-            self.ids[id(x)] = -1000 - self.nfresh
+            self.ids[id(x)] = (5000 + self.nfresh) if self.positive else (-1000 - self.nfresh)
             self.keep.append(x)
         return self.ids[id(x)]
 
@@ -461,13 +465,16 @@ def run_witness(eng, contract, clause_name, witness, repo_root, kind='post'):
     exc = None
     res = None
     try:
-        res = fn(*pos, **kw)
+        rc = contract.opts.get('replay_call')
+        res = rc(b, args, witness) if rc else fn(*pos, **kw)
         if fi.is_generator() and 'contextlib.contextmanager' not in fi.decorators:
             res = list(res)
     except Exception as e:
         exc = e
     post = concrete_heap('RPOST')
     ab2 = Abstractor(eng, ab.ids)
+    ab2.positive = False
+    ab2.nfresh = ab.nfresh
     ab2.ids = {k: v for k, v in ab.ids.items() if not (isinstance(k, tuple) and k[0] == 'done')}
     for r, o in list(b.real.items()):
         ab2.snap(o, post)
@@ -483,6 +490,8 @@ def run_witness(eng, contract, clause_name, witness, repo_root, kind='post'):
         elif 'path' in a:
             cargs[p.name] = PathV(_seq([ab2.tv(x, post, 0) for x in args[p.name]]))
     sc_pre = SpecCtx(eng, cargs, pre, pre)
+    if contract.opts.get('replay_extra'):
+        sc_pre.x = contract.opts['replay_extra'](b, args, witness, lambda v: ab2.tv(v, post, 0))
     defs = eng.ghost_defs(b.real, ids) if getattr(eng, 'ghost_defs', None) else []
     global _DEFS
     _DEFS = defs
@@ -494,6 +503,10 @@ def run_witness(eng, contract, clause_name, witness, repo_root, kind='post'):
     outcome = f'raised {type(exc).__name__}: {exc}' if exc is not None else f'returned {_short(res)}'
     sc = SpecCtx(eng, cargs, pre, post, rv, exc=exc)
     sc.events = []
+    rx = contract.opts.get('replay_extra')
+    if rx:
+        sc.x = rx(b, args, witness, lambda v: ab2.tv(v, post, 0))
+        sc_pre.x = sc.x
     if kind in ('post', 'frame'):
         if exc is not None:
             allowed = [rs for rs in contract.raises if _exc_matches(exc, rs.cls)]
